@@ -7,7 +7,7 @@ missed=0
 for d in sorted(glob.glob(root+'/seeded/*/')):
     name=os.path.basename(d.rstrip('/'))
     m=json.load(open(d+'meta.json'))
-    first='MISSED first' if 'MISSED' in m.get('note','') or 'first caught only' in m.get('note','') else 'detected'
+    first='MISSED first' if 'MISSED' in m.get('note','') or 'first missed' in m.get('note','') or 'first caught only' in m.get('note','') else 'detected'
     if first!='detected': missed+=1
     summ=m['summary'].replace('|','/').replace('\n',' ')
     if len(summ)>230: summ=summ[:227]+'...'
